@@ -185,6 +185,26 @@ class GlobInit(Contract):
                       exclude=V('opt', None, isnone=z3.Not(self.has_excl), inner=ObjV(z3.Const('exclude', Obj))))
         return dict(params=params, fields={}, pre=list(FL.PLATFORM_PRE) + [z3.Implies(self.pat_is_str, z3.Not(self.empty_list)), z3.Implies(self.excl_is_str, self.has_excl)], ghost={'$parse_calls': []})
 
+    def crosscheck(self, eng, paths, inp):
+        from .base import init_crosscheck
+        from wcmatch import glob
+
+        def build(m):
+            ev = lambda t: z3.is_true(m.eval(t, model_completion=True))      # noqa: E731
+            fl = m.eval(self.F, model_completion=True).as_long()
+            lim = m.eval(self.L, model_completion=True).as_long()
+            b = ev(self.pat_bytes)
+            pat = (b'x' if b else 'x') if ev(self.pat_is_str) else [b'x' if b else 'x']
+            kw = {}
+            if ev(self.has_excl):
+                kw['exclude'] = (b'y' if b else 'y') if ev(self.excl_is_str) else [b'y' if b else 'y']
+            if not ev(self.root_none):
+                kw['root_dir'] = b'.' if ev(self.root_bytes) else '.'
+            return glob.Glob(pat, flags=fl, limit=lim, **kw)
+        host = [z3.Not(FL.PLAT_WIN), FL.CASE_FS, z3.Not(FL.OS_NT), z3.Not(self.empty_list), self.L >= 0, self.L < 1000]      # Linux host; one pattern 'x' (and 'y' excluded)
+        return init_crosscheck(self, eng, paths, inp, build, extra=host, vary=[self.F, self.has_excl, self.pat_bytes, self.root_none], samples_per_path=2,
+                               skip=('total', 'current_limit', 'pattern', 'npatterns', 'nounique', 'seen'))      # state the abstract _parse_patterns calls change
+
     @property
     def hooks(self):
         me = self
